@@ -32,12 +32,13 @@ RULE = (
     'per_position, target_key/pred_key, ConfusionMatrix.num_classes equal or '
     'unequal to the number of scores) and one example: C in {2,3,5} '
     '(thorough: 2,3,4,5,7), T in {1,3,4,6} (thorough: 1,2,3,4,6,8); score '
-    'rows are drawn either from a per-row pool of 1-3 values (frequent ties '
-    'at the maximum), as constants, or freely from {+-0.0, +-1, +-0.5, 1 and '
-    'its float32 successor, +-100, +-1e30, +-1e-30, k/4, any normal float32 '
-    'with |v|<=1e30} or small ints (int32 scores, accuracy-type metrics); '
-    'targets are free, all drawn from the masked values (fully masked), or the '
-    'row argmax. 1 in 8 cases is evaluated under jax.jit, the rest eagerly. '
+    'rows are drawn either from a per-row pool of 2-3 distinct values '
+    '(frequent ties at the maximum), as constants, from {+0.0, -0.0}, or '
+    'freely from {+-0.0, +-1, +-0.5, 1 and its float32 successor, +-100, '
+    '+-1e30, +-1e-30, k/4, any normal float32 with |v|<=1e30} or small ints '
+    '(int32 scores, accuracy-type metrics); targets are free, drawn from the '
+    'masked values (fully / partly masked), or the row argmax. 1 in 10 cases '
+    'is evaluated under jax.jit, the rest eagerly. '
     'Aggregate checks draw 1-4 examples with padding masks / domain ids. '
     'Non-trivial: (scored metrics) some effective score row has a tie at its '
     'maximum, or k is outside [1, C), or the sequence is fully masked, or the '
@@ -518,7 +519,8 @@ def run_per_domain(case):
               lambda: f'{f}: {p_arr[f].shape}, base {bshape}, D={d}')
       for j in range(d):
         if j == dom:
-          require(np.array_equal(p_arr[f][j], np.broadcast_to(b_arr[f], bshape)),
+          require(np.array_equal(p_arr[f][j], np.broadcast_to(b_arr[f], bshape),
+                                 equal_nan=True),
                   'single:own_domain_row_is_base_statistic',
                   lambda: f'{f}[{j}]={p_arr[f][j].tolist()} base {b_arr[f].tolist()}')
         else:
@@ -586,7 +588,7 @@ def keys_and_mode(draw, spec, with_pred_key=True):
     spec['pred_key'] = draw(st.sampled_from([None, None, None, 'logits']))
 
 
-MODES = ['eager'] * 7 + ['jit']
+MODES = ['eager'] * 9 + ['jit']
 
 
 def top_k(c):
@@ -883,7 +885,7 @@ CHECKS = [
     Check(name='single_label', run=run_single_label,
           strategy=direct_strategy('single'),
           labels=direct_labels, nontrivial=direct_nontrivial,
-          budget={'quick': 12000, 'thorough': 160000},
+          budget={'quick': 8000, 'thorough': 80000},
           doc='CrossEntropyLoss / Accuracy / TopKAccuracy / ConfusionMatrix on '
               'one example vs the numpy reference; top-1 == accuracy, k<1 => 0, '
               'k>=C => 1, ties toward the lowest index, ValueError on a '
@@ -891,7 +893,7 @@ CHECKS = [
     Check(name='sequence_scored', run=run_sequence_scored,
           strategy=direct_strategy('scored'),
           labels=direct_labels, nontrivial=direct_nontrivial,
-          budget={'quick': 12000, 'thorough': 160000},
+          budget={'quick': 8000, 'thorough': 80000},
           doc='SequenceTokenCrossEntropyLoss / SequenceCrossEntropyLoss / '
               'SequenceTokenAccuracy / SequenceTokenTopKAccuracy vs the '
               'reference over masking patterns, logits masks, k and '
@@ -899,7 +901,7 @@ CHECKS = [
     Check(name='sequence_target_only', run=run_target_only,
           strategy=direct_strategy('target_only'),
           labels=direct_labels, nontrivial=direct_nontrivial,
-          budget={'quick': 10000, 'thorough': 120000},
+          budget={'quick': 8000, 'thorough': 80000},
           doc='SequenceTokenCount / SequenceCount / SequenceTruncationRate / '
               'SequenceTokenOOVRate / SequenceLength vs the reference over '
               'masked / oov tuples of length 0-3 and all masking patterns'),
@@ -907,7 +909,7 @@ CHECKS = [
           strategy=confusion_strategy,
           labels=confusion_labels,
           nontrivial=lambda c, ls: 'tie_at_max' in ls or 'padding_examples' in ls,
-          budget={'quick': 4000, 'thorough': 50000},
+          budget={'quick': 2400, 'thorough': 20000},
           doc='ConfusionMatrix over 1-4 examples with a padding mask (merged '
               'example statistics and evaluate_batch): one count per real '
               'example at (target, predicted); trace/total == Accuracy'),
@@ -915,7 +917,7 @@ CHECKS = [
           strategy=per_domain_strategy,
           labels=per_domain_labels,
           nontrivial=lambda c, ls: c['D'] >= 2,
-          budget={'quick': 4000, 'thorough': 50000},
+          budget={'quick': 3200, 'thorough': 30000},
           doc='PerDomainMetric(base, D) for every base metric: own-domain row '
               '== base statistic, other rows zero; merged over 1-4 examples, '
               'row d == base metric (reference) on the examples of domain d'),
